@@ -88,7 +88,7 @@ func genEnumerated(thorough bool) []Desc {
 	if thorough {
 		orders := [][]string{{"A", "B", "a", "b"}, {"A", "B", "b", "a"}, {"A", "a", "B", "b"}, {"B", "A", "a", "b"}, {"B", "A", "b", "a"}, {"B", "b", "A", "a"}}
 		for _, ord := range orders {
-			for mask := 0; mask < 16; mask++ {
+			for _, mask := range []int{0, 1, 2, 4, 8, 5, 10, 15} {
 				mk := func() []Op {
 					var l []Op
 					for i, x := range ord {
@@ -132,7 +132,7 @@ func genRandom(r *vh.Rng, thorough, guarded bool) []Desc {
 		n = 40
 	}
 	if thorough {
-		n *= 12
+		n *= 4
 	}
 	var out []Desc
 	for i := 0; i < n; i++ {
